@@ -74,6 +74,37 @@ pub fn cases<G: Cv>(bs: &[Base<G>], tier: Tier) -> Vec<Case> {
             }
         }
     }
+    // (i') long point lists: round counts at and beyond the widths the verifier shifts by (1 << k)
+    const LONG: [usize; 7] = [31, 32, 33, 40, 63, 64, 65];
+    const SHORT: [usize; 3] = [0, 1, 3];
+    for (bi, b) in bs.iter().enumerate() {
+        if ![0usize, 1, 4].contains(&b.gates) || !b.prog.closures.is_empty() {
+            continue;
+        }
+        let parts = Parts::<G>::parse(&b.bytes).expect("parse base");
+        let mut pool: Vec<G> = parts.l.iter().chain(parts.r.iter()).cloned().collect();
+        pool.push(parts.pts[0]);
+        pool.push(parts.pts[2]);
+        let mut pairs: Vec<(usize, usize)> = vec![];
+        for l in LONG {
+            for r in LONG {
+                if tier == Tier::Thorough || l == r || (l, r) == (32, 33) || (l, r) == (33, 32) || (l, r) == (64, 31) {
+                    pairs.push((l, r));
+                }
+            }
+            for r in SHORT {
+                pairs.push((l, r));
+                pairs.push((r, l));
+            }
+        }
+        for (l, r) in pairs {
+            let mut p = parts.clone();
+            p.l = (0..l).map(|i| if i < parts.l.len() { parts.l[i] } else { pool[i % pool.len()] }).collect();
+            p.r = (0..r).map(|i| if i < parts.r.len() { parts.r[i] } else { pool[(i + 1) % pool.len()] }).collect();
+            let class = if l > r { "|L|>|R|" } else if l < r { "|L|<|R|" } else { "|L|=|R|" };
+            out.push(Case { base: bi, desc: format!("long shape |L|={},|R|={} gates={}", l, r, b.gates), class: class.into(), bytes: p.to_bytes(), decode_only: false });
+        }
+    }
     // (ii) identity / zero at every position (small bases)
     for (bi, b) in bs.iter().enumerate() {
         if ![1usize, 2, 4].contains(&b.gates) {
@@ -262,7 +293,7 @@ pub fn main(o: &Opts) -> i32 {
         let v: Value = serde_json::from_str(&std::fs::read_to_string(path).unwrap()).unwrap();
         only = Some((v["case"]["curve"].as_str().unwrap().to_string(), v["case"]["index"].as_u64().unwrap() as usize));
     }
-    rep.bounds = json!({"shape_grid": if o.tier == Tier::Quick { "[0,6]^2" } else { "[0,9]^2" }, "verifier_circuits": "0..=9 gates, one- and two-phase",
+    rep.bounds = json!({"shape_grid": if o.tier == Tier::Quick { "[0,6]^2" } else { "[0,9]^2" }, "long_shapes": "|L|,|R| from {31,32,33,40,63,64,65} (equal pairs and a few unequal ones in quick, all pairs in thorough) and against {0,1,3}, on the 0-, 1- and 4-gate one-phase bases", "verifier_circuits": "0..=9 gates, one- and two-phase",
         "bytes": ["all strings of length <= 2", "every strict prefix", if o.tier == Tier::Quick { "4 substitutions per byte position" } else { "all 255 substitutions per byte position" }, "count slots <- 0..40 and huge values", "appended bytes"],
         "memory_limit": "peak live bytes during from_bytes <= 8*len + 64 KiB", "arrangements": ["verify", "batch [x]", "batch [x, valid]", "batch [valid, x]"]});
     rep.curves = CURVES.iter().map(|s| s.to_string()).collect();
